@@ -9,9 +9,11 @@ def val_eq(real, ref):
     """real: value from pybufrkit; ref: exact value from the reference (Fraction / int / bytes / None)."""
     if real is None or ref is None:
         return real is None and ref is None
-    if isinstance(ref, bytes) or isinstance(real, (bytes, str)):
+    if isinstance(ref, (bytes, str)) or isinstance(real, (bytes, str)):
         if isinstance(real, str):
             real = real.encode('latin-1')
+        if isinstance(ref, str):
+            ref = ref.encode('latin-1')
         return real == ref
     if isinstance(real, bool) or isinstance(ref, bool):
         return real == ref
@@ -162,3 +164,94 @@ def column_agreement(ref_msg):
         col = [s['values'][k] for s in ref_msg.subsets]
         out.append(all(c == col[0] for c in col))
     return out
+
+
+# ---- hierarchical view -------------------------------------------------------------------------
+
+def norm_real_nested(nodes):
+    """pybufrkit nested JSON (one subset) -> comparable structure: descriptions dropped"""
+    out = []
+    for n in nodes:
+        if isinstance(n, list):
+            out.append(norm_real_nested(n))
+            continue
+        d = {'id': n['id']}
+        if 'value' in n:
+            d['value'] = n['value']
+        if n.get('virtual'):
+            d['virtual'] = True
+        if 'factor' in n:
+            d['factor'] = norm_real_nested([n['factor']])[0]
+        if 'members' in n:
+            d['members'] = norm_real_nested(n['members'])
+        if 'attributes' in n:
+            d['attributes'] = norm_real_nested(n['attributes'])
+        out.append(d)
+    return out
+
+
+def norm_ref_nested(nodes, values):
+    out = []
+    for n in nodes:
+        if isinstance(n, list):
+            out.append(norm_ref_nested(n, values))
+            continue
+        d = {'id': n['id']}
+        if n.get('index') is not None:
+            d['value'] = values[n['index']]
+        if n.get('virtual'):
+            d['virtual'] = True
+        if 'factor' in n:
+            d['factor'] = norm_ref_nested([n['factor']], values)[0]
+        if 'members' in n:
+            d['members'] = norm_ref_nested(n['members'], values)
+        if 'attributes' in n:
+            d['attributes'] = norm_ref_nested(n['attributes'], values)
+        out.append(d)
+    return out
+
+
+def input_val_eq(real, ref):
+    """value held by an encoder-built message (the caller's input) vs the value FM-94 assigns to the encoded field:
+    a missing string is the all-ones field, text is latin-1 and blank padded / cut to the field width"""
+    if isinstance(ref, bytes):
+        if real is None:
+            return ref == b'\xff' * len(ref)
+        if isinstance(real, str):
+            real = real.encode('latin-1')
+        if isinstance(real, bytes):
+            return (real + b' ' * len(ref))[:len(ref)] == ref
+        return False
+    return val_eq(real, ref)
+
+
+def nested_diff(real, ref, path='$', eq=None):
+    """first difference between two normalised structures (values compared with val_eq) or None"""
+    eq = eq or val_eq
+    if isinstance(real, list) or isinstance(ref, list):
+        if not (isinstance(real, list) and isinstance(ref, list)):
+            return '%s: list vs node' % path
+        if len(real) != len(ref):
+            return '%s: %d entries, expected %d (%s vs %s)' % (path, len(real), len(ref), [x.get('id') if isinstance(x, dict) else '[..]' for x in real][:8],
+                                                                [x.get('id') if isinstance(x, dict) else '[..]' for x in ref][:8])
+        for i, (a, b) in enumerate(zip(real, ref)):
+            d = nested_diff(a, b, '%s[%d]' % (path, i), eq)
+            if d:
+                return d
+        return None
+    if real.get('id') != ref.get('id'):
+        return '%s: id %r, expected %r' % (path, real.get('id'), ref.get('id'))
+    if ('value' in real) != ('value' in ref):
+        return '%s (%s): value presence differs' % (path, real.get('id'))
+    if 'value' in real and not eq(real['value'], ref['value']):
+        return '%s (%s): value %r, expected %r' % (path, real['id'], real['value'], ref['value'])
+    if bool(real.get('virtual')) != bool(ref.get('virtual')):
+        return '%s (%s): virtual flag differs' % (path, real['id'])
+    for k in ('factor', 'members', 'attributes'):
+        if (k in real) != (k in ref):
+            return '%s (%s): %s present in %s only' % (path, real['id'], k, 'real' if k in real else 'expected')
+        if k in real:
+            d = nested_diff(real[k] if k != 'factor' else [real[k]], ref[k] if k != 'factor' else [ref[k]], path + '.' + k, eq)
+            if d:
+                return d
+    return None
